@@ -7,6 +7,7 @@ from vmon import gen
 from vmon import oracle as orc
 from vmon.checks.common import obs, fail, random_prefix, apply_prefix
 
+SPLIT_WAITS = "seq"   # worker: every fifth case is built from relative messages with rests split into adjacent waits
 PROP = "C10"
 MONITORS = ["bar_inv"]
 INSITU = {"k": "bar or track or composition or tokenisation or scale"}
